@@ -1,9 +1,9 @@
 SPECIFICATION Spec
 CONSTANTS
     Catalogue <- McCatalogue
-    MaxOps = 4
+    MaxOps = 5
     BatchIds = {1, 3}
-    Dev = {}
+    Dev = {"CloseKillsEmptyIts"}
     FieldBytes <- McFieldBytes
     NormTable <- McNormTable
 VIEW view
